@@ -7,10 +7,14 @@ Line protocol of the nested-inline model (C09).
   pmax <nodes> <ws> <wb> <ow> <fs> <indent> <outer> <is_line_start>                     → inline_max_content_width
   ptws <nodes> <ws> <wb> <ow> <fs>                                                      → trailing_whitespace_size
      skip ::= none | (index skip)
+  snodes <src> <ws>     → the children of the line box built from the source (process_whitespace + inline_in_block)
+  spara <src> <ws> <wb> <ow> <fs> <lh> <cbx> <width> <indent> <all> <last> <y>   → as `ipara`, from the source
+     src ::= ((t <text>) | (b <ls> <rs> <deco> (src…)) …);  nodes may be flagged: (f <node>) = trailing_collapsible_space
 -/
 import WpModel.Model.Wire
 import WpModel.Model.InlineRun
 import WpModel.Model.InlinePreferred
+import WpModel.Model.InlineSource
 import WpModel.Drive.LineBreak
 
 namespace Wp.Drive.InlineRun
@@ -20,7 +24,19 @@ partial def node? : Sx → Option Node
   | .list [.atom "t", t] => (text? t).map Node.text
   | .list [.atom "b", ls, rs, deco, .list kids] => do
     pure (.box (← ls.rat?) (← rs.rat?) (← deco.bool?) (← allSome node? kids))
+  | .list [.atom "f", n] => (node? n).map Node.flagged
   | _ => none
+
+partial def src? : Sx → Option IS.Src
+  | .list [.atom "t", t] => (text? t).map IS.Src.text
+  | .list [.atom "b", ls, rs, deco, .list kids] => do
+    pure (.box (← ls.rat?) (← rs.rat?) (← deco.bool?) (← allSome src? kids))
+  | _ => none
+
+partial def nodeSx : Node → Sx
+  | .text s => .list [.atom "t", .atom (encodeText s)]
+  | .box ls rs deco kids => .list [.atom "b", sxRat ls, sxRat rs, sxBool deco, .list (kids.map nodeSx)]
+  | .flagged n => .list [.atom "f", nodeSx n]
 
 partial def fragSx : Frag → Sx
   | .text s x w => .list [.atom "t", .atom (encodeText s), sxRat x, sxRat w]
@@ -55,6 +71,16 @@ def handle (cmd : String) (args : List Sx) : Option String :=
                             ws := st.ws, rtl := false }
     let p : IR.Para := { st := st, kids := ← allSome node? nodes, lineHeight := ← lh.rat?, cbx := ← cbx.rat?,
                          width := ← width.rat?, indent := ← indent.rat?, align := a, y := ← y.rat? }
+    pure (render ((IR.paragraph p).map (fun ls => .list (ls.map lineSx))))
+  | "snodes", [.list src, ws] => do
+    let w ← ws.atom?.bind WS.ofCss?
+    pure (Sx.list ((IS.lineKids w (← allSome src? src)).map nodeSx)).render
+  | "spara", [.list src, ws, wb, ow, fs, lh, cbx, width, indent, all, last, y] => do
+    let st ← style? ws wb ow fs
+    let a : AlignStyle := { alignAll := ← all.atom?.bind Align.ofCss?, alignLast := ← alignLast? last,
+                            ws := st.ws, rtl := false }
+    let p : IR.Para := { st := st, kids := IS.lineKids st.ws (← allSome src? src), lineHeight := ← lh.rat?,
+                         cbx := ← cbx.rat?, width := ← width.rat?, indent := ← indent.rat?, align := a, y := ← y.rat? }
     pure (render ((IR.paragraph p).map (fun ls => .list (ls.map lineSx))))
   | _, _ => none
 
